@@ -34,8 +34,10 @@ TLC_WORKERS = max(1, min(8, int(os.environ.get("VERIF_PROCS", "16")) // 2))
 SIG_ZERO_LEG = "desurvey-final-station-at-repeated-depth-ignored"
 SIG_SORT_TEXT = "depth-text-values-not-reordered-by-sort_depths"
 SIG_TRUNC_TEXT = "interval-text-value-truncated-on-collocated-match"
-LOG_DEVS = ("SortSkipsText", "TextMatchTruncated")
-DEV_SIG = {"SortSkipsText": SIG_SORT_TEXT, "TextMatchTruncated": SIG_TRUNC_TEXT}
+SIG_MIDCALL = "depth-set-after-interval-set-in-one-call-misaligned"
+TEXT_DEVS = ("SortSkipsText", "TextMatchTruncated")
+CALL_DEVS = ("MidCallDepthShort",)
+DEV_SIG = {"SortSkipsText": SIG_SORT_TEXT, "TextMatchTruncated": SIG_TRUNC_TEXT, "MidCallDepthShort": SIG_MIDCALL}
 
 
 # ------------------------------------------------------------------ conversions
@@ -389,17 +391,23 @@ def _compare(hole, state, postab, where):
     return "log-interval-value-misattached", f"{where}: cell rows {got[1]} expected {want[1]}"
 
 
-def _flag_findings(state):
-    """signatures of the named deviations whose effect TLC flagged in this state of the as-built graph"""
+def _flag_findings(state, devs):
+    """signatures of the named deviations (devs = those of the exported graph) whose effect TLC flagged in
+    this state: the property predicates are evaluated by TLC, the harness only attributes them"""
     sigs = set()
+    misaligned = not state["vertexAtDepth"]
+    if misaligned:
+        sigs.add(SIG_MIDCALL if "MidCallDepthShort" in devs else "log-model-state-violates-property")
     for entry in list(state["lost"]) + list(state["stray"]):
-        if entry["kind"] == "text" and entry["assoc"] == "V":
+        if entry["kind"] == "text" and entry["assoc"] == "V" and "SortSkipsText" in devs:
             sigs.add(SIG_SORT_TEXT)
-        elif entry["kind"] == "text" and entry["assoc"] == "C":
+        elif entry["assoc"] == "V" and "MidCallDepthShort" in devs:
+            sigs.add(SIG_MIDCALL)                    # value on a vertex whose DEPTH entry went elsewhere
+        elif entry["kind"] == "text" and entry["assoc"] == "C" and "TextMatchTruncated" in devs:
             sigs.add(SIG_TRUNC_TEXT)
         else:
             sigs.add("log-model-state-violates-property")
-    if not (state["aligned"] and state["vertexAtDepth"] and state["cellsJoin"]):
+    if not (state["aligned"] and state["cellsJoin"]):
         sigs.add("log-model-state-violates-property")
     return sigs
 
@@ -425,6 +433,8 @@ def _replay_log(item):
         hole = Drillhole.create(ws, collar=vec(pos["collar"]), name="hole",
                                 surveys=survey_array(pos["tables"][tab], pos["dirs"][tab]))
         seen = set()
+        devs = pos["devs"]
+        call, desc = {}, []
         for n, (label, state) in enumerate(steps):
             args = label["args"]
             kind = args["kind"]
@@ -435,12 +445,18 @@ def _replay_log(item):
                 attrs["from-to"] = np.array(args["at"]) / 1000.0
             if kind == "text":
                 attrs["type"] = "TEXT"
-            where = f"{mode} table {tab + 1} step {n + 1} {label['act']}({kind}, tol {args['tol'] / 1000}, {args['at']})"
+            call[f"d{args['name']}"] = attrs                    # the sets of one call, in order
+            desc.append(f"{label['act']}({kind}, {args['at']})")
+            if args.get("more"):
+                continue                                        # the object is observable between calls only
+            where = (f"{mode} table {tab + 1} set {n + 1}: add_data({{{'; '.join(desc)}}}, "
+                     f"collocation_distance={args['tol'] / 1000})")
             try:
-                hole.add_data({f"d{args['name']}": attrs}, collocation_distance=args["tol"] / 1000.0)
+                hole.add_data(call, collocation_distance=args["tol"] / 1000.0)
                 outcome = "ok"
             except Exception as exc:  # pylint: disable=broad-except
                 outcome = f"refused:{type(exc).__name__}: {exc}"
+            call, desc = {}, []
             if outcome.split(":")[0] != label["out"].split(":")[0]:
                 viol.append(_viol("log-add-" + ("raises:" + outcome.split(":")[1] if outcome != "ok" else "accepted"),
                                   f"{where}: outcome {outcome[:300]} expected {label['out']}", rcase))
@@ -457,11 +473,11 @@ def _replay_log(item):
                 viol.append(_viol(diff[0], diff[1], rcase))
                 mismatch = True
                 break
-            for sig in _flag_findings(state) - seen:
+            for sig in _flag_findings(state, devs) - seen:
                 seen.add(sig)
                 viol.append(_viol(sig, f"{where}: the object agrees with the as-built model in a state where TLC "
-                                       f"evaluates the property to false: lost {state['lost']} stray {state['stray']}",
-                                  rcase))
+                                       f"evaluates the property to false: vertexAtDepth {state['vertexAtDepth']} "
+                                       f"lost {state['lost']} stray {state['stray']}", rcase))
     finally:
         try:
             ws.close()
@@ -491,43 +507,103 @@ def _log_graph(cfg, devs, seed, max_len=8):
     return res, pos[0], g, paths
 
 
+def _steps(g, p):
+    steps = [(g.edges[i][2], g.states[g.edges[i][1]]) for i in p]
+    while steps and steps[-1][0]["args"].get("more"):           # never leave a call open
+        steps.pop()
+    return steps
+
+
 def _items(pos, g, paths, seed, modes):
     n_tab = len(pos["tables"])
-    items = []
+    return [(pos, n % n_tab, modes[(n // n_tab) % len(modes)], _steps(g, p), seed + n) for n, p in enumerate(paths)]
+
+
+def _shapes(g, p):
+    """shape classes of a history that the quick sample must contain (they need three sets)"""
+    lbl = [g.edges[i][2] for i in p]
+    out = set()
+    if [(x["act"], x["args"]["more"]) for x in lbl] == [("AddDepth", False), ("AddInterval", False), ("AddDepth", False)]:
+        out.add("depth-interval-depth-calls")
+    for n, i in enumerate(p):
+        src, x = g.states[g.edges[i][0]], lbl[n]
+        if x["act"] != "AddDepth" or not src["inCall"]:
+            continue
+        if lbl[n - 1]["act"] == "AddInterval" and src["hasDepth"]:
+            out.add("interval-then-depth-in-one-call")
+        known = [d if d >= 0 else 10 ** 7 for d in src["depth"]] if src["hasDepth"] else []
+        if known != sorted(known) and {a[0] for a in x["args"]["at"]} & set(known):
+            out.add("multi-set-call-reusing-depth-while-unsorted")
+    return out
+
+
+def _prioritised(g, paths, limit, seed):
+    """(chosen paths, modes, counts): every shape class first (live object; seeded sub-sample when a class is
+    larger than a third of the limit), the rest uniformly"""
+    rng = random.Random(seed)
+    by_shape = {}
     for n, p in enumerate(paths):
-        steps = [(g.edges[i][2], g.states[g.edges[i][1]]) for i in p]
-        items.append((pos, n % n_tab, modes[(n // n_tab) % len(modes)], steps, seed + n))
-    return items
+        for sh in _shapes(g, p):
+            by_shape.setdefault(sh, []).append(n)
+    if limit is None:
+        return list(paths), None, {k: len(v) for k, v in by_shape.items()}
+    chosen, modes = [], []
+    taken = set()
+    for sh in sorted(by_shape):
+        idx = [n for n in by_shape[sh] if n not in taken]
+        if len(idx) > limit // 3:
+            idx = sorted(rng.sample(idx, limit // 3))
+        for n in idx:
+            taken.add(n)
+            chosen.append(paths[n])
+            modes.append("live" if sh == "depth-interval-depth-calls" or len(chosen) % 3 else "reopen1")
+    rest = [n for n in range(len(paths)) if n not in taken]
+    for k, n in enumerate(sorted(rng.sample(rest, max(0, min(len(rest), limit - len(chosen)))))):
+        chosen.append(paths[n])
+        modes.append(MODES[k % len(MODES)])
+    return chosen, modes, {k: len(v) for k, v in by_shape.items()}
 
 
-def _probe(seed):
-    """Which named deviations does this implementation exhibit?  Each subset gives a small as-built
-    graph; the subset whose graph the implementation follows without any mismatch is used for the
-    main export (the empty subset = the ideal specification)."""
-    subsets = [tuple(c) for r in range(len(LOG_DEVS) + 1) for c in itertools.combinations(LOG_DEVS, r)]
+def _probe_one(cfg, candidates, seed):
+    subsets = [tuple(c) for r in range(len(candidates) + 1) for c in itertools.combinations(candidates, r)]
     with ThreadPoolExecutor(max_workers=2) as pool:
-        graphs = list(pool.map(lambda s: _log_graph("DrillholeLogProbe.cfg", s, seed), subsets))
+        graphs = list(pool.map(lambda s: _log_graph(cfg, s, seed), subsets))
     scores = []
     for devs, (res, pos, g, paths) in zip(subsets, graphs):
         fired = set()
         for st in g.states.values():
-            fired |= _flag_findings(st)
+            if not st["inCall"]:
+                fired |= _flag_findings(st, devs)
         if fired != {DEV_SIG[d] for d in devs}:
-            raise MachineryError(f"probe graph for {devs}: flagged effects {sorted(fired)} (vacuous or unexpected)")
+            raise MachineryError(f"probe graph {cfg} for {devs}: flagged effects {sorted(fired)} (vacuous or unexpected)")
         out = pmap(_replay_log, _items(pos, g, paths, seed, ["live"]))
         scores.append((sum(1 for o in out if o["mismatch"]), len(devs), devs, len(paths)))
     scores.sort()
     return scores[0][2], {"/".join(s[2]) or "ideal": f"{s[0]} of {s[3]} probe paths disagree" for s in scores}
 
 
+def _probe(seed):
+    """Which named deviations does this implementation exhibit?  Each subset gives a small as-built
+    graph; the subset whose graph the implementation follows without any mismatch is used for the
+    main export (the empty subset = the ideal specification).  The text deviations and the call
+    deviation are independent (text values / float values, one set / several sets per call) and are
+    probed on two small graphs."""
+    text, score_a = _probe_one("DrillholeLogProbe.cfg", TEXT_DEVS, seed)
+    call, score_b = _probe_one("DrillholeLogProbeB.cfg", CALL_DEVS, seed)
+    return tuple(text) + tuple(call), {"DrillholeLogProbe.cfg": score_a, "DrillholeLogProbeB.cfg": score_b}
+
+
 LOG_CFG = {
-    # cfg, number of paths replayed (None = all), invariant cfg
-    "quick": [("DrillholeLogQuick.cfg", 2000)],
-    "thorough": [("DrillholeLogQuick.cfg", None), ("DrillholeLogDeep.cfg", 8000), ("DrillholeLogDeepText.cfg", 8000)],
+    # cfg, number of paths replayed (None = all)
+    "quick": [("DrillholeLogQuick.cfg", 1000), ("DrillholeLogMulti.cfg", 1500)],
+    "thorough": [("DrillholeLogQuick.cfg", None), ("DrillholeLogMulti.cfg", None), ("DrillholeLogDeep.cfg", 6000),
+                 ("DrillholeLogDeepText.cfg", 6000), ("DrillholeLogMultiText.cfg", 6000)],
 }
-LOG_INV = {"quick": ["DrillholeLogQuickInv.cfg"],
-           "thorough": ["DrillholeLogQuickInv.cfg", "DrillholeLogDeepInv.cfg", "DrillholeLogDeepTextInv.cfg"]}
+LOG_INV = {"quick": ["DrillholeLogQuickInv.cfg", "DrillholeLogMultiInv.cfg"],
+           "thorough": ["DrillholeLogQuickInv.cfg", "DrillholeLogMultiInv.cfg", "DrillholeLogDeepInv.cfg",
+                        "DrillholeLogDeepTextInv.cfg", "DrillholeLogMultiTextInv.cfg"]}
 MODES = ["live", "reopen1", "live", "reopen1", "live", "reopen2"]
+SHAPES = ("depth-interval-depth-calls", "interval-then-depth-in-one-call", "multi-set-call-reusing-depth-while-unsorted")
 
 
 def _run_log(tier, seed):
@@ -536,18 +612,24 @@ def _run_log(tier, seed):
     viol, states, trans, replayed, steps = [], 0, 0, 0, 0
     sample = None
     exhaustive = True
+    shapes_replayed = {}
     for cfg, limit in LOG_CFG[tier]:
         res, pos, g, paths = _log_graph(cfg, devs, seed)
         states += res.distinct
         trans += res.generated
-        chosen, full = funcheck.sample(paths, limit, seed)
-        exhaustive = exhaustive and full
+        chosen, modes, shape_counts = _prioritised(g, paths, limit, seed)
+        exhaustive = exhaustive and len(chosen) == len(paths)
         items = _items(pos, g, chosen, seed, MODES)
+        if modes is not None:
+            items = [(it[0], it[1], m, it[3], it[4]) for it, m in zip(items, modes)]
+        for it, p in zip(items, chosen):
+            for sh in _shapes(g, p):
+                shapes_replayed[sh] = shapes_replayed.get(sh, 0) + (it[2] == "live")
         out = pmap(_replay_log, items)
         viol += [v for o in out for v in o["viol"]]
         replayed += len(items)
         steps += sum(o["steps"] for o in out)
-        flagged = sum(1 for s in g.states.values() if _flag_findings(s))
+        flagged = sum(1 for s in g.states.values() if not s["inCall"] and _flag_findings(s, devs))
         # vacuity: the graph must contain merges of collocated depths / intervals, unsorted arguments and
         # re-sorts that renumber existing cells
         merged = unsorted = renumbered = 0
@@ -566,11 +648,16 @@ def _run_log(tier, seed):
         cov["per_config"][cfg] = {"states": res.distinct, "transitions": len(g.edges), "paths": len(paths),
                                   "paths_replayed": len(items), "tlc_wall_s": round(res.wall_s, 1),
                                   "states_flagged_by_tlc": flagged, "calls_merging_collocated": merged,
-                                  "calls_with_unsorted_arguments": unsorted, "calls_renumbering_cells": renumbered}
-        if sample is None:
-            it = items[len(items) // 2]
+                                  "calls_with_unsorted_arguments": unsorted, "calls_renumbering_cells": renumbered,
+                                  "paths_per_shape": shape_counts}
+        if sample is None or "Multi" in cfg and "Multi" not in sample["cfg"]:
+            it = items[len(items) // 3]
             sample = {"cfg": cfg, "table": it[1] + 1, "mode": it[2], "actions": [s[0] for s in it[3]],
                       "final_state": it[3][-1][1]}
+    for sh in SHAPES:
+        if not shapes_replayed.get(sh):
+            raise MachineryError(f"no history of shape {sh} was replayed on a live object")
+    cov["shapes_replayed_on_live_object"] = shapes_replayed
     # design level: the ideal specification satisfies the property on the same bounds
     for cfg in LOG_INV[tier]:
         res = run_tlc(AREA, "DrillholeLog", cfg, workers=TLC_WORKERS, heap=HEAP, keep_lines=False)
@@ -648,6 +735,7 @@ def run(tier, seed):
                 ("DesurveyCache", "DesurveyCache_CollarKeepsCache.cfg", "ReadIsCurrent"),
                 ("DrillholeLog", "DrillholeLog_SortSkipsText.cfg", "ValuesAttached"),
                 ("DrillholeLog", "DrillholeLog_TextMatchTruncated.cfg", "ValuesAttached"),
+                ("DrillholeLog", "DrillholeLog_MidCallDepthShort.cfg", "VertexAtDepth"),
                 ("DrillholeLog", "DrillholeLog_SortKeepsCells.cfg", "CellsJoin"),
                 ("DrillholeLog", "DrillholeLog_SortKeepsVertices.cfg", "VertexAtDepth")]
     with ThreadPoolExecutor(max_workers=3) as pool:
